@@ -84,6 +84,8 @@ impl OperationControl for GreedyFixed {
         let mut p = position;
         let mut matches = 0;
         while p <= guard {
+            #[cfg(feature = "verif-hooks")]
+            crate::verif::step(crate::verif::site::GREEDY_FIXED);
             let mut it = self.operation.matches_iter(matcher, p);
             let matched = it.next().is_some();
             if matched {
